@@ -870,7 +870,8 @@ def plan(prop, tier):
     if tier == 'quick':
         return {'runs': len(MATRIX), 'wall_cap': 900, 'chunk': 1,
                 'opt_runs': 9}
-    return {'runs': 4 * len(MATRIX), 'wall_cap': 4 * 3600, 'chunk': 1}
+    return {'runs': 3 * len(MATRIX), 'wall_cap': 6 * 3600, 'chunk': 1,
+            'opt_runs': 40}
 
 
 def jobs(prop, tier, seed, runs):
